@@ -92,6 +92,11 @@ def run_shard(cfg):
             viol("roundtrip-differs", "decode(encode(v)) != v: %s -> %s" % (short(v, 40), short(got[0], 40)), {"value": short(v, 80), "decoded": short(got[0], 80)})
         else:
             c.inc("roundtrips_equal")
+        # the application now owns the decoded value and changes it in place; nothing the decoder hands out later may be affected
+        # (a shared empty list, a cached object ...): the following decodes are compared with their sources as always
+        if i % 2 == 0:
+            G.poison(got[0])
+            c.inc("decoded_values_mutated_in_place")
         # dumpb/loadb for objects
         if isinstance(v, S.Serializable):
             try:
@@ -149,6 +154,18 @@ def run_shard(cfg):
                     c.inc("limit_values_roundtrip")
             except Exception as e:
                 viol("limit-value-refused:%s" % name, "%s is inside the documented limits but raised %r" % (name, e), {"name": name})
+    # ---- long strings with multi-byte characters across power-of-two byte offsets (striped over the shards)
+    for name, v in G.boundary_strings(r, cfg["shard"], 12):
+        c.inc("boundary_strings")
+        try:
+            b = encode(v)
+            got, pos = decode_all(b)
+            if pos != len(b) or got[0] != v:
+                viol("long-string-roundtrip", "%s does not round-trip" % name, {"name": name})
+            else:
+                c.inc("boundary_strings_roundtrip")
+        except Exception as e:
+            viol("long-string-roundtrip", "%s is inside the documented limits but raised %r" % (name, e), {"name": name})
     # ---- outside the domain: refused with an error, never silently mis-encoded
     for name, v in G.out_of_domain(r):
         c.inc("out_of_domain_values")
@@ -182,7 +199,8 @@ def finish(tier, seed, results):
     m = merge(results)
     inconclusive = []
     need(m["counters"], ["values", "encoded", "roundtrips_equal", "concatenations", "dumpb_loadb", "out_of_domain_refused", "limit_values_roundtrip",
-                         "refused_inputs_interleaved", "decodes_after_refused_input_equal", "fields_none_with_non_none_default"], inconclusive)
+                         "refused_inputs_interleaved", "decodes_after_refused_input_equal", "fields_none_with_non_none_default",
+                         "boundary_strings_roundtrip", "decoded_values_mutated_in_place"], inconclusive)
     cov = {
         "evaluations": m["evaluations"],
         "distinct_nontrivial": m["distinct_nontrivial"],
